@@ -83,7 +83,7 @@ class StandardNode(XmlNode):
         if obj is None and not self.nillable:
             obj = ""
 
-        if self.datatype.wrapper:
+        if self.datatype.wrapper and isinstance(obj, self.datatype.type):
             obj = self.datatype.wrapper(obj)
 
         if self.derived_factory:
